@@ -115,6 +115,14 @@ class Grammar(Generic[_NodeT]):
             if module_node is not None:
                 return module_node  # type: ignore[no-any-return]
 
+        # The modification time has to be looked up before reading, otherwise
+        # a file that is written to while it's being parsed ends up in the
+        # cache as if the tree belonged to the new content.
+        try:
+            change_time = None if file_io.path is None else file_io.get_last_modified()
+        except OSError:
+            change_time = None
+
         if code is None:
             code = file_io.read()
         code = python_bytes_to_unicode(code)
@@ -143,7 +151,8 @@ class Grammar(Generic[_NodeT]):
                 try_to_save_module(self._hashed, file_io, new_node, lines,
                                    # Never pickle in pypy, it's slow as hell.
                                    pickling=cache and not is_pypy,
-                                   cache_path=cache_path)
+                                   cache_path=cache_path,
+                                   change_time=change_time)
                 return new_node  # type: ignore[no-any-return]
 
         tokens = self._tokenizer(lines)
@@ -159,7 +168,8 @@ class Grammar(Generic[_NodeT]):
             try_to_save_module(self._hashed, file_io, root_node, lines,
                                # Never pickle in pypy, it's slow as hell.
                                pickling=cache and not is_pypy,
-                               cache_path=cache_path)
+                               cache_path=cache_path,
+                               change_time=change_time)
         return root_node  # type: ignore[no-any-return]
 
     def _get_token_namespace(self):
